@@ -48,6 +48,9 @@ func allProps() []*PropSpec {
 		propC17(),
 		propC02(),
 		propC12(),
+		propC13(),
+		propC19(),
+		propC20(),
 	}
 }
 
@@ -303,7 +306,7 @@ func propC03() *PropSpec {
 			js = append(js, jobsN("html", "VerifHTMLAttrURL", pick(rng(4, 5), rng(4, 7)), "URL attributes: scheme handling")...)
 			js = append(js, jobsN("html", "VerifHTMLText", pick(rng(1, 2), rng(1, 2)), "T1<X>T2</X>T3 for 13 element kinds, KeepWhitespace/KeepEndTags symbolic: rendered word sequence")...)
 			js = append(js, jobsN("html", "VerifHTMLPre", pick(rng(0, 3), rng(0, 5)), "pre/textarea content untouched")...)
-			js = append(js, jobsN("html", "VerifHTMLTree", pick(rng(1, 4), rng(1, 5)), "conforming trees built by n symbolic actions over 13 element kinds + text + comments; reference tree builder on input and output")...)
+			js = append(js, jobsN("html", "VerifHTMLTree", pick(rng(1, 3), rng(1, 4)), "conforming trees built by n symbolic actions over 13 element kinds + text + comments; reference tree builder on input and output")...)
 			js = append(js, jobsN("html", "VerifHTMLStartTags", []int{0}, "html/head/body/colgroup start tags with and without attributes")...)
 			js = append(js, Job{Pkg: "html", Fn: "VerifHTMLTwin", N: 0, ExpectFail: true, Desc: "vacuity twin"})
 			return js
@@ -528,6 +531,74 @@ func propC12() *PropSpec {
 			js = append(js, jobsN(".", "VerifWriterWrapper", pick(rng(0, 3), rng(0, 4)), "Writer wrapper: symbolic producer chunks, failing underlying writer, Close semantics")...)
 			js = append(js, jobsN(".", "VerifMiddleware", pick(rng(0, 2), rng(0, 3)), "Middleware / MiddlewareWithError / ResponseWriter: Content-Type vs path extension, Content-Length, WriteHeader")...)
 			js = append(js, Job{Pkg: ".", Fn: "VerifDispatchTwin", N: 0, ExpectFail: true, Desc: "vacuity twin"})
+			return js
+		},
+	}
+}
+
+func propC13() *PropSpec {
+	return &PropSpec{
+		ID:   "C13",
+		Rule: "one case = one feasible path and cooperative schedule: (a) every entry point (Minify, Bytes, String, Reader, Writer) on a registry whose minifier re-enters the registry (MinifyMimetype, Minify, Match, Bytes), with sync.RWMutex modelled so that a write lock under a held read lock is a reported deadlock; (b) Match/Bytes calls issued while another call is in flight on another modelled goroutine; (c) option structs of all six minifiers unchanged by calls with and without the inline parameter, repeated calls and a fresh struct give the same bytes; non-trivial = completes with a distinct symbolic output",
+		Assumptions: []string{"goroutines are coroutines that switch at the blocking points of the modelled io.Pipe / WaitGroup / RWMutex", "sequential sufficient conditions stand in for the schedule quantifier: no write lock and no write to shared state inside a call (option structs, registry), byte-identical repeated results"},
+		Outside:     []string{"real preemptive interleavings, the race detector, GOMAXPROCS, cross-process repeatability: not reachable by symbolic execution of the code (stated; not replaced by another technique)", "writes to package-level state other than through the option structs are not monitored natively"},
+		Stubs:       []string{"sync.RWMutex: readers/writer model", "io.Pipe, sync.WaitGroup models of C12"},
+		Jobs: func(tier string) []Job {
+			var js []Job
+			js = append(js, jobsN(".", "VerifRegistryReentrant", rng(0, 2), "5 entry points x re-entrant minifier x in-flight concurrent calls")...)
+			for _, p := range [][2]string{{"css", "VerifCSSOptionsImmutable"}, {"html", "VerifHTMLOptionsImmutable"}, {"svg", "VerifSVGOptionsImmutable"}, {"js", "VerifJSOptionsImmutable"}, {"json", "VerifJSONOptionsImmutable"}, {"xml", "VerifXMLOptionsImmutable"}} {
+				js = append(js, Job{Pkg: p[0], Fn: p[1], N: 0, Desc: "option struct unchanged, repeatable, history independent, all option values symbolic"})
+			}
+			js = append(js, Job{Pkg: ".", Fn: "VerifDispatchTwin", N: 0, ExpectFail: true, Desc: "vacuity twin"})
+			return js
+		},
+	}
+}
+
+func propC19() *PropSpec {
+	return &PropSpec{
+		ID:   "C19",
+		Rule: "one case = one feasible path of the real cmd/minify code: createTasks on an in-memory fs.FS with symbolic presence of 11 tree entries (hidden files, unknown extensions, nested and hidden directories, symlinks to a file and to a directory), flags recursive/hidden/sync, explicit media type, 4 input shapes x 4 output shapes, against a reference model of the documented destination rules; concatFileReader on symbolic file contents, separator, chunkings; minify(Task) on an engine-side model of the os package for 6 invocation shapes incl. write faults; non-trivial = completes with a distinct symbolic output",
+		Assumptions: []string{"model file system: flat path map with one level of symbolic links, implicit directories, atomic rename/remove, truncate at open, all-or-prefix writes", "the library is a stub minifier (drops x, doubles y, fails on z)", "filters (match/include/exclude), preserve options and watch mode are off"},
+		Outside:     []string{"run(): flag parsing (argp), stdin/stdout plumbing, worker pool, watch mode", "permissions, ownership, timestamps (preserveAttributes is reached with all preserve options off)", "the real kernel: only the model's semantics", "minify(Task) violations cannot be replayed natively (the file system is a model): they are reported as engine-only"},
+		Stubs:       []string{"os.Lstat/Stat/SameFile/Readlink/Rename/Remove/MkdirAll/Symlink/Chmod/Chown/Chtimes/Open/OpenFile and (*os.File).Read/Write/Close/ReadFrom/WriteTo: model in harness/cmd_minify/vfs.go", "time.Now/Since, atime.Get: constants", "log, fmt.Print*: no-ops"},
+		Jobs: func(tier string) []Job {
+			var js []Job
+			js = append(js, jobsN("cmd/minify", "VerifCreateTasks", []int{0}, "createTasks: tree x flags x shapes vs reference destination model")...)
+			if tier == "quick" {
+				js = append(js, jobsN("cmd/minify", "VerifConcat", []int{1}, "bundle reader: up to 3 files of up to n bytes, 3 separators, chunkings")...)
+			} else {
+				js = append(js, jobsN("cmd/minify", "VerifConcat", []int{1, 2}, "bundle reader: up to 3 files of up to n bytes, 3 separators, chunkings")...)
+			}
+			for _, n := range []int{1, 2} {
+				js = append(js, Job{Pkg: "cmd/minify", Fn: "VerifMinifyTask", N: n, NoNative: true, Desc: "minify(Task) on the model file system: 6 invocation shapes, contents up to n bytes, write faults"})
+			}
+			js = append(js, Job{Pkg: "cmd/minify", Fn: "VerifCmdTwin", N: 0, ExpectFail: true, NoNative: false, Desc: "vacuity twin"})
+			return js
+		},
+	}
+}
+
+func propC20() *PropSpec {
+	return &PropSpec{
+		ID:   "C20",
+		Rule: "one case = one feasible path of the real minify(Task) on the model file system with the kill point k symbolic (the process dies right before the k-th mutating operation: rename, create/truncate at open, each write, remove, symlink) for in-place, separate-output, in-place-through-symlink, bundle-onto-an-input, bundle-to-new-file and sync-copy invocations, contents symbolic up to n bytes incl. contents on which minification fails; plus write faults (C19 job): the original bytes of every input are at their path, in a .bak of the path or of an alias, or the path holds the complete new output",
+		Assumptions: []string{"model semantics: rename atomic, O_TRUNC empties at open, write = all bytes or a prefix, remove atomic (the trusted base); no page cache / fsync semantics", "one task at a time"},
+		Outside:     []string{"real kernel and file system crash semantics (ptrace-level system call boundaries, fsync, journaling): not reachable; only the stated model", "chmod/chtimes steps (preserve options off)", "violations are engine-only (no native counterpart of a kill point)"},
+		Stubs:       []string{"as C19"},
+		Jobs: func(tier string) []Job {
+			var js []Job
+			ns := []int{1, 2}
+			if tier != "quick" {
+				ns = []int{1, 2, 3}
+			}
+			for _, n := range ns {
+				js = append(js, Job{Pkg: "cmd/minify", Fn: "VerifMinifyCrash", N: n, NoNative: true, Desc: "kill point symbolic over every mutating operation, 6 invocation shapes"})
+			}
+			for _, n := range []int{1, 2} {
+				js = append(js, Job{Pkg: "cmd/minify", Fn: "VerifMinifyTask", N: n, NoNative: true, Desc: "write faults: the original survives and is restored"})
+			}
+			js = append(js, Job{Pkg: "cmd/minify", Fn: "VerifCmdTwin", N: 0, ExpectFail: true, Desc: "vacuity twin"})
 			return js
 		},
 	}
